@@ -111,6 +111,14 @@ def _loc_mask(locs) -> int:
     return m
 
 
+def dt_text(v) -> str:
+    """the driver's date-time value: the canonical text; a naive datetime keeps no zone (it is a
+    different value from the aware one its URL text parses back to)"""
+    if isinstance(v, datetime.datetime) and v.tzinfo is None:
+        return v.isoformat()
+    return iso_text(v)
+
+
 def enc_pos(p) -> str:
     if p is None:
         return "-"
@@ -119,7 +127,7 @@ def enc_pos(p) -> str:
     if isinstance(p, int):
         return f"n{p}"
     if isinstance(p, (datetime.datetime, datetime.time)):
-        return "t" + hx(iso_text(p))
+        return "t" + hx(dt_text(p))
     return f"?{type(p).__name__}"
 
 
@@ -155,7 +163,7 @@ def enc_val(kbase: str, v) -> str:
             if isinstance(v, str):
                 return "S" + hx(v)
             if isinstance(v, (datetime.datetime, datetime.time)):
-                return "A" + hx(iso_text(v))
+                return "A" + hx(dt_text(v))
             return f"?{type(v).__name__}"
         if kbase == "errorList":
             return "E" + ",".join(f"{c}/{enc_pos(p)}" for c, p in v)
@@ -386,7 +394,8 @@ AST_TEXTS = ["now", "today", "month", "year", "epoch", "Now", "TODAY", "", "none
              "2024-01-01T05:30:00 05:30", "2024-01-01T05:30:00+05:30", "2024-01-01T00:00:00Z",
              "2024-02-30T00:00:00Z", "2024-13-01T00:00:00Z", "2024-01-01T24:00:00Z", "2024-01-01T00:00:60Z",
              "0000-01-01T00:00:00Z", "12:30:45Z", "25:00:00Z", "2024-01-01 00:00:00Z", "20240101T000000Z",
-             "2023-12-31T23:59:59.999999-08:00", "2024-01-01T00:00:00.000001Z", "2024-01-01Tx", "T", "Z"]
+             "2023-12-31T23:59:59.999999-08:00", "2024-01-01T00:00:00.000001Z", "2024-01-01Tx", "T", "Z",
+             "2024-01-01T00:00:00", "2024-06-07T08:09:10.250000"]
 URL_TEXTS = ["http%3A%2F%2Fx%2Fa%2520b", "https%3A%2F%2Fl.x%2F%3Fa%3D1%26b%3D2", "a+b", "a%2Bb", "%C3%A9", "%c3%A9",
              "%E6%97%A5", "%25", "%2525", "%%41", "%4", "%", "%zz", "x%zzy%41", "none", "NONE", "", "é%41", "a b"]
 
